@@ -50,13 +50,52 @@ Theorem C14_compatible :
 Proof. split; [exact equal_or_compatible_sym | exact equal_or_compatible_sem]. Qed.
 Print Assumptions C14_compatible.
 
-(* Entropy value, PSSM, mutation lists and count profiles are not modelled in
-   this revision (see DESIGN.md); the remaining statistics are tied to the code
-   by the correspondence and judged against their naive definitions by
-   Corr/C14.v spec_check. *)
+(* ---- lists of mutations relative to a reference (ListMutationsComparedToReferenceSequence, nucleotide-wise
+   loop; [cols] holds, per column, the sequence's character, the reference's character and whether the
+   two are equal or IUPAC-compatible) *)
+
+(* the residues facing the gaps of the reference are exactly the residues reported as insertions, in
+   order, whatever their grouping: nothing lost, nothing reported twice *)
+Theorem C14_insertions_conserve_residues :
+  forall all cols refi,
+  flat_map m_alt (filter is_insertion (list_mut_loop all cols [] refi)) =
+  map (fun c => fst (fst c)) (filter (fun c => beqb (snd (fst c)) GAP && negb (beqb (fst (fst c)) GAP)) cols).
+Proof. intros all cols refi. exact (insertions_conserve_residues all cols [] refi). Qed.
+Print Assumptions C14_insertions_conserve_residues.
+
+(* the other entries are exactly the reference residues whose facing character is neither the wildcard nor
+   equal / compatible, each at its coordinate on the ungapped reference *)
+Theorem C14_substitutions_are_the_incompatible_residues :
+  forall all cols refi,
+  filter (fun m => negb (is_insertion m)) (list_mut_loop all cols [] refi) = subst_spec all cols refi.
+Proof. intros all cols refi. exact (substitutions_are_the_incompatible_residues all cols [] refi). Qed.
+Print Assumptions C14_substitutions_are_the_incompatible_residues.
+
+Theorem C14_mutation_positions_non_decreasing :
+  forall all cols refi, pos_sorted refi (list_mut_loop all cols [] refi) = true.
+Proof. intros all cols refi. exact (positions_non_decreasing all cols [] refi). Qed.
+Print Assumptions C14_mutation_positions_non_decreasing.
+
+(* count and list agree (protein / unknown alphabets): the count is the number of listed substitutions by a
+   residue plus the number of inserted residues other than the wildcard *)
+Theorem C14_count_is_list_protein :
+  forall alphabet ref s,
+  Z.eqb alphabet NUCLEOTIDS = false -> length ref = length s ->
+  exists l, list_mutations_vs_ref alphabet ref s = Some l /\
+    num_mutations_vs_ref alphabet ref s =
+      Some (length (filter (fun m => negb (is_insertion m) && negb (bytes_eqb (m_alt m) [GAP])) l) +
+            length (filter (fun b => negb (beqb b ALL_AMINO)) (flat_map m_alt (filter is_insertion l)))).
+Proof. exact count_is_list_aa. Qed.
+Print Assumptions C14_count_is_list_protein.
+
+(* Entropy value and PSSM are not modelled in this revision (see DESIGN.md); the remaining statistics are
+   tied to the code by the correspondence and judged against their naive definitions by Corr/C14.v
+   spec_check. *)
 
 Example C14_nonvacuous :
   max_char_site NUCLEOTIDS true false [x41; x61; x2d; x2d; x2d; x43] = (x41, 2, 3) /\
   max_char_site NUCLEOTIDS false false [x43; x41; x61; x63] = (x41, 2, 4) /\
-  num_mutations_vs_ref NUCLEOTIDS [x41; x43; x2d; x52] [x41; x54; x47; x41] = Some 2.
+  num_mutations_vs_ref NUCLEOTIDS [x41; x43; x2d; x52] [x41; x54; x47; x41] = Some 2 /\
+  list_mutations_vs_ref NUCLEOTIDS [x41; x2d; x2d; x43; x2d; x47] [x41; x54; x54; x2d; x41; x41] =
+    Some [(x2d, 1%Z, [x54; x54]); (x43, 1%Z, [x2d]); (x2d, 2%Z, [x41]); (x47, 2%Z, [x41])].
 Proof. repeat split; vm_compute; reflexivity. Qed.
